@@ -138,7 +138,7 @@ let handle id kind fields =
              (if lid = "" then None else Some (cs lid)) with
      | None -> Printf.printf "%s\tNONE\n" id
      | Some r -> res_line id r (fun (d, s) -> shows d ^ "\t" ^ shows s))
-  | "evalattr", [v; ""; seed] when (match run_rng_attr (cs v) Z0 with Some _ -> true | None -> false) ->
+  | "rngattr", [v; ""; seed] when (match run_rng_attr (cs v) Z0 with Some _ -> true | None -> false) ->
     (* values made only of random()/randint() calls (C06); anything else is not handled here *)
     let rec z_of_string s = (* decimal u64, may exceed OCaml's int *)
       String.fold_left (fun acc c -> Model.Z.add (Model.Z.mul acc (z_of_int 10)) (z_of_int (Char.code c - 48))) Z0 s in
@@ -154,6 +154,22 @@ let handle id kind fields =
     res_line id (run_docroot (parse_doc d) (z_of_int (int_of_string border)) (z_of_int (int_of_string scale)))
       (fun (e, a) -> (match e with Some bb -> show_bb bb | None -> "none") ^ "\t" ^
                      (match a with Some a -> "A" ^ show_attrs a | None -> "none"))
+  | "evalattr", [v; a; seed] ->
+    (* seeds are u64: parse through Int64 so that values >= 2^62 survive; build the Z by halves *)
+    let sd = Int64.of_string ("0u" ^ seed) in
+    let hi = Int64.to_int (Int64.shift_right_logical sd 32) and lo = Int64.to_int (Int64.logand sd 0xFFFFFFFFL) in
+    let zseed = Z.add (Z.mul (z_of_int hi) (z_of_int 4294967296)) (z_of_int lo) in
+    (match run_evalattr (cs v) (parse_attrs a) zseed with
+     | Ok ((s, w), n) -> Printf.printf "%s\tOK\t%s\t%d\t%d\n" id (hs s) (int_of_z w) (int_of_z n)
+     | Err k -> Printf.printf "%s\tERR\t%s\n" id (implode (errkind_name k))
+     | Panic m -> Printf.printf "%s\tPANIC\t%s\n" id (implode m)
+     | OutOfFuel -> Printf.printf "%s\tOUTOFFUEL\n" id)
+  | "evalcond", [v; a] ->
+    res_line id (run_evalcond (cs v) (parse_attrs a)) (fun b -> if b then "true" else "false")
+  | "evallist", [v; a] ->
+    res_line id (run_evallist (cs v) (parse_attrs a)) (fun l -> String.concat "," (List.map hs l))
+  | "rngwords", [seed; n] ->
+    Printf.printf "%s\tOK\t%s\n" id (String.concat "," (List.map (fun w -> string_of_int (int_of_z w)) (run_rngwords (z_of_int (int_of_string seed)) (z_of_int (int_of_string n)))))
   | _ -> Printf.printf "%s\tSKIP\n" id
 
 let () =
